@@ -43,6 +43,40 @@ Definition ndop_apply (d : vd) (o : ndop) : vd :=
   end.
 Definition run_ncalls (d : vd) (l : list ndop) : vd := fold_left ndop_apply l d.
 
+(* a recorded call is ACCEPTED by the container: the operation returns ROk (index in range, dimensions valid) and a
+   vector it passes has exactly one entry per port of the object it is passed to.  The loaders do not test the return
+   values at these sites ((void) casts, accessors compiled without bounds checks): a refused call in the model would
+   be an unchecked store in the C code. *)
+Definition op_of (o : dop) : DataModel.op V :=
+  match o with
+  | DFiletype k => DataModel.OSetFiletype V k
+  | DFormat => DataModel.OSetFormat V (Some 0%nat)
+  | DInit t r c f => DataModel.OInit V t r c f
+  | DResize t r c f => DataModel.OResize V t r c f
+  | DAllZ0 => DataModel.OSetAllZ0 V vany
+  | DZ0Vec n => DataModel.OSetZ0Vec V (repeat vany n)
+  | DAddFreq => DataModel.OAddFreq V 0
+  | DSetFreq i => DataModel.OSetFreq V i 0
+  | DFz0Vec i n => DataModel.OSetFz0Vec V i (repeat vany n)
+  end.
+Definition ret_ok (r : DataModel.ret) : bool := match r with DataModel.ROk => true | _ => false end.
+Definition call_ok (d : vd) (o : dop) : bool :=
+  ret_ok (DataModel.o_ret V (snd (stepf d (op_of o)))) &&
+  match o with
+  | DZ0Vec n | DFz0Vec _ n => Nat.eqb n (DataModel.ports V d)
+  | _ => true
+  end.
+(* every call is accepted; or the only refused one is the last, a vnadata_init (rows * columns > INT_MAX: the
+   loader fails with EINVAL at that call) *)
+Fixpoint calls_accepted (d : vd) (l : list dop) : bool :=
+  match l with
+  | [] => true
+  | o :: r => (call_ok d o && calls_accepted (dop_apply d o) r)
+              || match o, r with DInit _ _ _ _, [] => true | _, _ => false end
+  end.
+Definition ncalls_accepted (d : vd) (l : list ndop) : bool :=
+  calls_accepted d (flat_map (fun o => match o with NCall c => [c] | _ => [] end) l).
+
 (* the destination after vnadata_fload(vdp, fp, name): name_ft = 1 / 2 / 3 for .sNp / .ts / .npd, 0 = no suffix *)
 Definition name_calls (name_ft : Z) : list dop := if name_ft =? 0 then [] else [DFiletype name_ft].
 
@@ -72,5 +106,9 @@ Definition harness_dest : DataModel.vd unit :=
   fst (DataModel.init unit tt tt DataModel.fixed (DataModel.vd_alloc unit tt tt) 4 3 3 2).
 Definition ts_digest (name_ft : Z) (calls : list dop) :=
   digest unit (run_calls unit tt tt tt harness_dest (name_calls name_ft ++ calls)).
+Definition ts_accepted (name_ft : Z) (calls : list dop) : bool :=
+  calls_accepted unit tt tt tt harness_dest (name_calls name_ft ++ calls).
+Definition npd_accepted (name_ft : Z) (calls : list ndop) : bool :=
+  ncalls_accepted unit tt tt tt (run_calls unit tt tt tt harness_dest (name_calls name_ft)) calls.
 Definition npd_digest (name_ft : Z) (calls : list ndop) :=
   digest unit (run_ncalls unit tt tt tt (run_calls unit tt tt tt harness_dest (name_calls name_ft)) calls).
